@@ -623,7 +623,7 @@ def _result_slim(res):
     return {"violations": res["violations"], "stats": res["stats"], "digest": res["digest"], "signature": res["signature"], "nontrivial": True, "run": -1, "nsteps": len(res["trace"]["steps"]), "trace": res["trace"]}
 
 
-TIERS = {"quick": {"runs": 4000, "guard": 120}, "thorough": {"runs": 30000, "guard": 300}}
+TIERS = {"quick": {"runs": 4000, "guard": 120}, "thorough": {"runs": 60000, "guard": 300}}
 
 RULE = (
     "One case = one seeded two-party history: user U holding a change detector (PELT, MovingWindow, "
